@@ -10,7 +10,7 @@ from pool import run_chunks
 
 INVARIANTS = ["ArgsEqual", "SeamContinuous", "Ordering", "BandEqualsPaper", "BandMonotone", "ClippedOnlyClips", "NeverNaN",
               "CacheIsAsimov", "Emit"]
-ACTIONS = ["ChooseCase", "DistributionsEarly", "TestStatistic", "Distributions", "PValuesStep", "ExpectedPValuesStep"]
+ACTIONS = ["ChooseCase", "Rescan", "DistributionsEarly", "TestStatistic", "Distributions", "PValuesStep", "ExpectedPValuesStep"]
 OTHERS = ["pytorch", "jax", "tensorflow"]
 
 TIERS = {
@@ -45,7 +45,7 @@ def run(prop, tier):
     rnd.shuffle(cases)
     backends = ["numpy"] + (OTHERS if tier == "thorough" else [OTHERS[sd % 3]])
     tot = dict(n=0, nontrivial=0, calls=0, hypotests=0, seam_probes=0, float_probes=0, beyond_tail=0, compared=0, stub_calls=0,
-               refused_early=0, branch2=0, seam=0, capped=0)
+               refused_early=0, branch2=0, seam=0, capped=0, rescans=0)
     maxrel, per_backend, kinds = 0.0, {}, {}
     for be in backends:
         share, hypo_every, probes = PLAN[tier]["numpy" if be == "numpy" else "other"]
@@ -59,7 +59,7 @@ def run(prop, tier):
             if "machinery" in out:
                 raise Machinery(out["machinery"])
             for k in tot:
-                tot[k] += out[k]
+                tot[k] += out.get(k, 0)
             n_be += out["n"]
             maxrel = max(maxrel, out["maxrel"])
             for k, n in out["by_kind"].items():
@@ -73,8 +73,8 @@ def run(prop, tier):
         per_backend[be] = n_be
     if not v.violations and not v.known_hits and (tot["stub_calls"] < 2 * tot["calls"] or tot["calls"] == 0):
         raise Machinery("C07 replay: the substituted test statistic was not consumed by AsymptoticCalculator.teststatistic")
-    if tot["seam"] == 0 or tot["branch2"] == 0 or tot["capped"] == 0:
-        raise Machinery(f"C07 replay is vacuous: seam={tot['seam']} branch2={tot['branch2']} capped={tot['capped']}")
+    if tot["seam"] == 0 or tot["branch2"] == 0 or tot["capped"] == 0 or tot["rescans"] == 0:
+        raise Machinery(f"C07 replay is vacuous: seam={tot['seam']} branch2={tot['branch2']} capped={tot['capped']} rescans={tot['rescans']}")
     for ln in cases[:3]:
         d = json.loads(ln)
         v.sample({k: d[k] for k in ("kind", "base", "r", "rA", "branch2", "def")})
@@ -83,7 +83,7 @@ def run(prop, tier):
         invariants=INVARIANTS[:-1], actions={a: res.coverage.get(a, {}).get("taken", 0) for a in ACTIONS},
         traces_validated_against_impl=tot["n"], evaluations=tot["calls"] + tot["hypotests"], distinct_nontrivial=tot["nontrivial"],
         cases_emitted=len(cases), cases_per_backend=per_backend, by_kind=kinds, second_branch_cases=tot["branch2"], seam_cases=tot["seam"],
-        capped_band_entries=tot["capped"], calculator_runs=tot["calls"], hypotests=tot["hypotests"], seam_neighbour_probes=tot["seam_probes"],
+        capped_band_entries=tot["capped"], second_scan_points_on_a_reused_calculator=tot["rescans"], calculator_runs=tot["calls"], hypotests=tot["hypotests"], seam_neighbour_probes=tot["seam_probes"],
         float_probes=tot["float_probes"], pvalues_compared=tot["compared"], pvalues_beyond_tail=tot["beyond_tail"],
         distributions_before_teststatistic_refused=tot["refused_early"], max_rel_error_seen=maxrel, rtol=1e-10,
         rule=("TLC enumerates the calculator protocol (ChooseCase, TestStatistic, Distributions, PValues, ExpectedPValues) for every "
